@@ -251,16 +251,20 @@ func ownershipObligations(prog *Program, db *SpecDB, pf *PropFile) ([]*Obligatio
 		obls = append(obls, o)
 	}
 	type rootInfo struct {
-		name string
-		fns  []*ssa.Function
-		res  ownResult
+		name    string
+		fns     []*ssa.Function
+		res     ownResult
+		ordered map[string]bool
 	}
 	var roots []*rootInfo
 	var parent *ssa.Function
 	var pkg *ssa.Package
 	all := map[*ssa.Function]bool{}
 	for _, g := range pf.GoroutineRoots {
-		ri := &rootInfo{name: g.Name}
+		ri := &rootInfo{name: g.Name, ordered: map[string]bool{}}
+		for _, ow := range g.OrderedWith {
+			ri.ordered[ow] = true
+		}
 		for _, k := range g.Functions {
 			f := prog.Funcs[expandKey(k)]
 			mk("root-exists:"+k, "the goroutine root "+k+" exists in the current tree", f != nil, "no such function")
@@ -377,37 +381,52 @@ func ownershipObligations(prog *Program, db *SpecDB, pf *PropFile) ([]*Obligatio
 		return obls, notes
 	}
 	check := func(kind, name string, typ types.Type, guarded bool, get func(*rootInfo) []ownAccess) {
-		var writers, users []string
-		loaders := 0
+		orderedPair := func(a, b *rootInfo) bool { return a.ordered[b.name] || b.ordered[a.name] }
+		var users []string
+		var active []*rootInfo
 		for _, ri := range roots {
-			acc := get(ri)
-			if len(acc) == 0 {
-				continue
+			if acc := get(ri); len(acc) > 0 {
+				active = append(active, ri)
+				users = append(users, ri.name+" (in "+acc[0].where+")")
 			}
-			loaders++
+		}
+		writes := func(ri *rootInfo) string {
 			w := ""
-			for _, a := range acc {
+			for _, a := range get(ri) {
 				if a.write {
 					w = a.where
 				}
 			}
-			users = append(users, ri.name+" (in "+acc[0].where+")")
-			if w != "" {
-				writers = append(writers, ri.name+" (in "+w+")")
+			return w
+		}
+		// a conflict: two roots that are not ordered with each other, one of which stores
+		var conflicts []string
+		shared := false
+		for i, a := range active {
+			for _, b := range active[i+1:] {
+				if orderedPair(a, b) {
+					continue
+				}
+				shared = true
+				if w := writes(a); w != "" {
+					conflicts = append(conflicts, a.name+" stores (in "+w+") while "+b.name+" uses it")
+				} else if w := writes(b); w != "" {
+					conflicts = append(conflicts, b.name+" stores (in "+w+") while "+a.name+" uses it")
+				}
 			}
 		}
 		safe := typ != nil && ownTypeSafe(typ)
 		// the location itself is safe to share only if it IS a synchronisation primitive (a mutex, an
 		// atomic); a pointer to something safe is still a plain word that must not be stored concurrently
-		ok := guarded || (safe && !ownPointerLike(typ)) || len(writers) == 0 || loaders < 2
-		mk(kind+":"+name, "no goroutine root stores "+name+" while another root loads or stores it (unless guarded by a lock or of a concurrency-safe type)",
-			ok, "written by "+strings.Join(writers, "; ")+"; used by "+strings.Join(users, "; "))
+		ok := guarded || (safe && !ownPointerLike(typ)) || len(conflicts) == 0
+		mk(kind+":"+name, "no goroutine root stores "+name+" while another root that is not ordered with it loads or stores it (unless guarded by a lock or itself a mutex/atomic)",
+			ok, strings.Join(conflicts, "; "))
 		if pt, isP := typ.(*types.Pointer); isP && TypeKey(pt.Elem()) == structKey {
 			return // the shared struct itself: its fields are what the norace obligations are about
 		}
 		if typ != nil && ownPointerLike(typ) {
-			ok2 := loaders < 2 || safe
-			mk("pointee:"+name, "the value "+name+" refers to is reachable from at most one goroutine root, or is of a concurrency-safe type",
+			ok2 := !shared || safe
+			mk("pointee:"+name, "the value "+name+" refers to is reachable from at most one goroutine root (or only from roots ordered with each other), or is of a concurrency-safe type",
 				ok2, "type "+typ.String()+" loaded by "+strings.Join(users, "; "))
 		}
 	}
